@@ -15,6 +15,8 @@ use std::collections::BTreeMap;
 use std::mem::ManuallyDrop;
 use std::panic::{catch_unwind, AssertUnwindSafe};
 
+static K_CACHE: std::sync::atomic::AtomicUsize = std::sync::atomic::AtomicUsize::new(0);
+
 thread_local! {
     pub static LAST_PANIC: RefCell<String> = RefCell::new(String::new());
 }
@@ -190,6 +192,8 @@ pub struct Sim<const M: usize> {
     pub released: usize,
     /// 0 normal, 1 only None/usize::MAX limits (not traced), 2 limit calls skipped
     pub limit_mode: u8,
+    /// twin runs: force every op to its fallible (true) or infallible (false) flavour
+    pub force_fallible: Option<bool>,
 }
 
 pub fn round_up(n: usize, a: usize) -> usize {
@@ -200,6 +204,10 @@ impl<const M: usize> Sim<M> {
     /// Measure the fixed per-chunk overhead on a throw-away arena: block size minus the capacity of
     /// a fresh chunk.  Also cross-checked against the arena's own accounting by the C08 monitor.
     pub fn measure_k(rep: &mut Report) -> usize {
+        let cached = K_CACHE.load(std::sync::atomic::Ordering::Relaxed);
+        if cached != 0 {
+            return cached;
+        }
         halloc::op_begin();
         let b = Bump::<M>::with_min_align_and_capacity(64);
         let ev = halloc::op_end();
@@ -212,6 +220,7 @@ impl<const M: usize> Sim<M> {
             }
         };
         drop(b);
+        K_CACHE.store(k, std::sync::atomic::Ordering::Relaxed);
         k
     }
 
@@ -243,6 +252,7 @@ impl<const M: usize> Sim<M> {
             acquired: 0,
             released: 0,
             limit_mode: 0,
+            force_fallible: None,
         };
         if let Some(c) = cap {
             if !s.reconstruct(rep, Some(c), fallible_ctor) {
